@@ -1,7 +1,7 @@
 (* Model/Parse.v — the two string parsers, transcribed step by step from
      spindalis_core/src/polynomials/simple.rs        (parse_simple_polynomial)
      spindalis_core/src/polynomials/intermediate.rs  (parse_intermediate_polynomial)
-   as of the repaired tree (fix commits fad4ad4, 41cbeb6, 820a0e7, 1b17d58).
+   as of the repaired tree (fix commits fad4ad4, 41cbeb6, 820a0e7, 1b17d58, fa94a59).
    Strings are lists of scalar values (Base/Str.v).  Definitions only. *)
 From Coq Require Import ZArith NArith List Bool.
 From SV Require Import Base.Num Base.Outcome Base.Str Model.Poly Gen.Consts.
@@ -13,6 +13,16 @@ Definition MAX_POWER : Z := Eval compute in Gen.Consts.max_power.
 Section Parse.
   Context {T : Type} {NT : Num T}.
   Variable U : UClass.
+
+  (* f64::is_finite, written with class operations only: x - x is 0 exactly for finite x
+     (inf - inf and NaN - NaN are NaN).  Always true in R and Z. *)
+  Definition is_finite (x : T) : bool := neqb (nsub x x) n0.
+  (* a numeral beyond the range of f64 is rejected instead of becoming infinity (fa94a59) *)
+  Definition parse_dec_finite (s : str) : option T :=
+    match parse_dec s with
+    | Some v => if is_finite v then Some v else None
+    | None => None
+    end.
 
   (* input.replace(char::is_whitespace, "").replace("-", "+-") *)
   Definition minus_to_plusminus (s : str) : str :=
@@ -35,7 +45,7 @@ Section Parse.
   (* one part -> (coefficient, power) *)
   Definition simple_term (var : option N) (part : str) : res (T * nat) :=
     let constant :=
-      match parse_dec part with
+      match parse_dec_finite part with
       | Some c => Ok (c, O)
       | None => Err EInvalidConstant
       end in
@@ -51,8 +61,8 @@ Section Parse.
           | [] => Ok n1
           | [c] => if N.eqb c c_plus then Ok n1
                    else if N.eqb c c_minus then Ok (nneg n1)
-                   else match parse_dec coeff_str with Some c => Ok c | None => Err EInvalidCoefficient end
-          | _ => match parse_dec coeff_str with Some c => Ok c | None => Err EInvalidCoefficient end
+                   else match parse_dec_finite coeff_str with Some c => Ok c | None => Err EInvalidCoefficient end
+          | _ => match parse_dec_finite coeff_str with Some c => Ok c | None => Err EInvalidCoefficient end
           end in
         match coeff with
         | Ok c =>
@@ -87,11 +97,19 @@ Section Parse.
   (* the two places where the Rust code can panic: `max_power + 1` (usize overflow)
      and `vec![0.0; n]` (capacity overflow above isize::MAX bytes).  Both are kept
      in the model so that "never panics" is a theorem that needs the exponent cap. *)
+  (* `coeffs[power] += coeff; if !coeffs[power].is_finite() { return Err(..) }` : every partial
+     sum written into the vector must be finite (fa94a59) *)
+  Definition sums_finite (terms : list (T * nat)) : bool :=
+    snd (fold_left (fun (st : list T * bool) t =>
+                      let cs' := add_at (fst st) (snd t) (fst t) in
+                      (cs', snd st && is_finite (nth (snd t) cs' n0)))
+                   terms (repeat n0 (S (max_power_of terms)), true)).
   Definition dense_coeffs_checked (terms : list (T * nat)) : res (list T) :=
     let m := Z.of_nat (max_power_of terms) in
     if (2 ^ 64 <=? m + 1)%Z then Panic WOverflow
     else if (2 ^ 63 - 1 <? (m + 1) * 8)%Z then Panic WAlloc
-    else Ok (dense_coeffs terms).
+    else if sums_finite terms then Ok (dense_coeffs terms)
+    else Err EInvalidCoefficient.
 
   Definition parse_simple (input : str) : res (spoly T) :=
     let normalized := minus_to_plusminus (strip_ws input) in
@@ -137,7 +155,7 @@ Section Parse.
     match split_on c_slash s with
     | [a; b] =>
         match parse_dec a, parse_dec b with
-        | Some x, Some y => if nneb y n0 then Some (ndiv x y) else None
+        | Some x, Some y => if nneb y n0 && is_finite y && is_finite (ndiv x y) then Some (ndiv x y) else None
         | _, _ => None
         end
     | _ => None
@@ -151,7 +169,7 @@ Section Parse.
       else if contains_char c_slash cs then
         match parse_fraction cs with Some v => Ok v | None => Err EInvalidFraction end
       else
-        match parse_dec cs with Some v => Ok v | None => Err EInvalidCoefficient end
+        match parse_dec_finite cs with Some v => Ok v | None => Err EInvalidCoefficient end
     end.
 
   (* exponent scan: ASCII digits and SPECIAL_CHARS = ['.', '/', '-'] *)
@@ -167,7 +185,7 @@ Section Parse.
     if contains_char c_slash ps then
       match parse_fraction ps with Some v => Ok v | None => Err EInvalidFractionalExponent end
     else
-      match parse_dec ps with Some v => Ok v | None => Err EInvalidExponent end.
+      match parse_dec_finite ps with Some v => Ok v | None => Err EInvalidExponent end.
 
   (* variables of one term; fuel = length of the remaining text (each step consumes >= 1 char) *)
   Fixpoint scan_vars (fuel : nat) (s : str) (acc : list (name * T)) : res (list (name * T)) :=
@@ -211,7 +229,12 @@ Section Parse.
     match inter_coeff cs with
     | Ok c =>
       match scan_vars (length rest) rest [] with
-      | Ok vs => Ok {| t_coef := c; t_vars := merge_vars (sort_vars vs) [] |}
+      | Ok vs =>
+          let merged := merge_vars (sort_vars vs) [] in
+          (* exponents of a repeated variable that add up beyond the range of f64 (fa94a59) *)
+          if forallb (fun vp => is_finite (snd vp)) merged
+          then Ok {| t_coef := c; t_vars := merged |}
+          else Err EInvalidExponent
       | Err e => Err e
       | Panic w => Panic w
       end
